@@ -472,6 +472,52 @@ func runCase(m *mon.M, c *Case) {
 		}
 		mine := fits[method]
 		feat := inputFeature(refs, segs)
+		if feat == "composite-segment" && len(mine) > 0 {
+			// The recorded defect of composite segments concerns requests that split in several ways or lack the
+			// separator. A request that every fitting template splits in exactly ONE way is dispatched correctly
+			// by the unchanged tree: it gets a class of its own, which no known finding covers.
+			unambiguous := true
+			fitting := map[*refTemplate]bool{}
+			for _, fs := range fits {
+				for _, f := range fs {
+					fitting[f.rt] = true
+					if len(f.assigns) != 1 {
+						unambiguous = false
+					}
+					// every literal of a composite segment occurs exactly once in the request's segment (the
+					// recorded defect includes splitting at the first occurrence when that leaves an empty part)
+					for i, parts := range f.rt.segs {
+						if len(parts) < 2 {
+							continue
+						}
+						for _, pt := range parts {
+							if pt.name == "" && (!occursOnce(segs[i], pt.lit) || !occursOnce(decodedOr(segs[i]), pt.lit)) {
+								unambiguous = false
+							}
+						}
+					}
+				}
+			}
+			// ... and no other composite template gets in the way (one whose literal segments agree with the
+			// request but which the request does not instantiate is routed to all the same: the known defect)
+			for _, rt := range refs {
+				if !rt.compos || fitting[rt] || len(rt.segs) != len(segs) {
+					continue
+				}
+				loose := true
+				for i, parts := range rt.segs {
+					if isPureLit(parts) && parts[0].lit != segs[i] {
+						loose = false
+					}
+				}
+				if loose {
+					unambiguous = false
+				}
+			}
+			if unambiguous {
+				feat = "composite-segment/unambiguous-split"
+			}
+		}
 		if len(mine) > 0 {
 			// the designated operations: those not beaten by another fitting one
 			var best []fitT
@@ -620,6 +666,12 @@ func inputFeature(refs []*refTemplate, segs []string) string {
 	return feat
 }
 
+// occursOnce: lit occurs in s at exactly one position (overlapping occurrences count: "---" holds "--" twice).
+func occursOnce(s, lit string) bool {
+	i := strings.Index(s, lit)
+	return i >= 0 && !strings.Contains(s[i+1:], lit)
+}
+
 func decodedOr(seg string) string {
 	if d, err := url.PathUnescape(seg); err == nil {
 		return d
@@ -660,7 +712,9 @@ var basePaths = []string{"/", "", "/api", "/api/", "/a/b", "/", "/x"}
 
 var richLiterals = []string{"items:batchGet", "a*w9", "v=1", "caf\u00e9", "Users", "x~y", "a;b", "a,b", "a+b", "@me"}
 
-var placeholderWords = append([]string{"api", "a", "b", "x", "p", "ap"}, gen.Words...)
+// (names with bytes outside [A-Za-z0-9_-] are legal; "a.b" is left out because the dependency that collects an
+// operation's parameters keys them by their Go-ified name, under which "a.b" and "ab" are the same parameter)
+var placeholderWords = append([]string{"api", "a", "b", "x", "p", "ap", "book.id", "v~1", "k$", "id!"}, gen.Words...)
 
 func genTemplate(r *rand.Rand, id int) string {
 	if r.Intn(25) == 0 {
